@@ -79,9 +79,7 @@ def run(ctx):
         if n[0] != "e":
             return False
         for (a, t) in flow.edge_facts(n):
-            if a[0] == "eq" and not t and "FullFDT" in show(a[1]) + show(a[2]):
-                return True
-            if a[0] == "variant" and "publish_mode" in show(a[1]) and ((a[2] == "FullFDT") != t):
+            if mode_is((a, t), "FullFDT") is False:
                 return True
             if a[0] == "true" and t and any(c[0] == "call" and c[1].endswith("FileDesc::is_published") for c in walk(a[1])):
                 return True
@@ -110,8 +108,10 @@ def run(ctx):
     somes = ret_assign_blocks(g.body, lambda e: is_variant(e, "Some"))
     for bb, e in somes:
         fs = gflow.facts_at(bb)
-        dom = any(a[0] == "variant" and any(c[0] == "call" and c[1].endswith("Iterator::find") and sel_ok and
-                                            any(z[0] == "closure" and z[1] == sel_ok for z in walk(c)) for c in walk(a[1]))
+        # the index / element comes from `find(sel)` or `position(sel)` and the path is the one where it found something
+        dom = any(a[0] == "variant" and ((a[2] in ("Some", "Continue")) == t) and a[2] in ("Some", "None", "Continue", "Break") and
+                  any(c[0] == "call" and re.search(r"Iterator::(find|position)$", c[1]) and sel_ok and
+                      any(z[0] == "closure" and z[1] == sel_ok for z in walk(c)) for c in walk(a[1]))
                   for (a, t) in fs)
         key = "get_next_file_transfer returns Some"
         if dom:
@@ -179,12 +179,8 @@ def auto_publish_rule(ctx, r4):
     gflow2 = Flow(g.body)
 
     def contra2(fact):
-        (a, t) = fact
-        if a[0] == "variant" and "publish_mode" in show(a[1]):
-            if a[2] == "FullFDT" and t:
-                return False
-            if a[2] == "ObjectsBeingTransferred" and not t:
-                return False
+        if mode_is(fact, "FullFDT") is True:
+            return False
         return None
 
     gflow2.assume(contra2)
